@@ -429,6 +429,75 @@ def editorProcess (env : Env) (fluid : Bool) (k : Key) (c : Ctx) : Ctx × PResul
       | .none => (r.1, .noop)
     else (r.1, .noop)
 
+/-! ### Punctuator (punctuator.cc; digit separators configured off) -/
+
+/-- `punctuation_is_translated(ctx, "punct")`: the last segment carries the tag and has a selected candidate.
+(The C++ also asks for the candidate's type "punct": a `punct`-tagged segment holds only candidates of the punct
+translator as long as no punctuation key is a letter of the speller's alphabet — the driver refuses other schemas.) -/
+def punctTranslated (c : Ctx) : Bool :=
+  match c.comp.segs.getLast? with
+  | none => false
+  | some g => g.tags.punct && g.selected.isSome
+
+/-- Punctuator::AlternatePunct.  `Prepare(selected_index + 2)` then `(selected_index += 1) %= candidate_count()`:
+the number of candidates prepared so far is either ≥ index + 2 (no wrap) or the whole list — in both cases the new
+index is `(index + 1) % |list|`. -/
+def alternatePunct (c : Ctx) (key : UInt8) (d : PunctDef) : Ctx × Bool :=
+  match d with
+  | .alt _ =>
+    match c.comp.segs.getLast? with
+    | none => (c, false)
+    | some g =>
+      if g.status.rank > Status.void.rank && g.tags.punct && substr c.input g.start (g.stop - g.start) = [key] then
+        match g.menu with
+        | none => (c, false)
+        | some l =>
+          if l = [] then (c, false)
+          else (c.modLastSeg (fun g => { g with selIdx := (g.selIdx + 1) % l.length, status := .guess }), true)
+      else (c, false)
+  | _ => (c, false)
+
+def toggleOdd (l : List (Bool × UInt8)) (k : Bool × UInt8) : List (Bool × UInt8) :=
+  if l.contains k then l.filter (· != k) else k :: l
+
+/-- Punctuator::PairPunct; `k` = (shape, key) identifies the definition (`oddness_` is keyed by the config item) -/
+def pairPunct (env : Env) (k : Bool × UInt8) (c : Ctx) : Ctx :=
+  match c.comp.segs.getLast? with
+  | none => c
+  | some g =>
+    if g.status.rank > Status.void.rank && g.tags.punct then
+      if g.prepare 2 < 2 then c
+      else
+        let odd := if c.punctOdd.contains k then 1 else 0
+        let c1 := c.modLastSeg (fun g => { g with selIdx := (g.selIdx + odd) % 2 })
+        (Ctx.confirmCurrentSelection env { c1 with punctOdd := toggleOdd c.punctOdd k }).1
+    else c
+
+/-- `ConfirmUniquePunct(def) || AutoCommitPunct(def) || PairPunct(def)` -/
+def punctFinish (env : Env) (k : Bool × UInt8) (d : PunctDef) (c : Ctx) : Ctx :=
+  match d with
+  | .unique _ => (Ctx.confirmCurrentSelection env c).1
+  | .alt _ => c
+  | .commit _ => (Ctx.commit env c).1
+  | .pair _ _ => pairPunct env k c
+
+/-- Punctuator::ProcessKeyEvent -/
+def punctProcess (env : Env) (k : Key) (c : Ctx) : Ctx × PResult :=
+  if k.release || k.ctrl || k.alt || k.super then (c, .noop)
+  else if k.code < 0x20 || k.code ≥ 0x7f then (c, .noop)
+  else if c.getOption "ascii_punct" then (c, .noop)
+  else if !env.punct.useSpace && k.code = 0x20 && c.isComposing then (c, .noop)
+  else
+    let shape := c.getOption "full_shape"
+    match punctFind (env.punct.mapping shape) k.byte with
+    | none => (c, .noop)
+    | some d =>
+      let r := alternatePunct c k.byte d
+      if r.2 then (r.1, .accepted)
+      else
+        let c1 := Ctx.pushInput env r.1 k.byte
+        if punctTranslated c1 then (punctFinish env (shape, k.byte) d c1, .accepted) else (c1, .accepted)
+
 /-! ### the chain (ConcreteEngine::ProcessKey) -/
 
 def procRun (env : Env) (p : Proc) (k : Key) (c : Ctx) : Ctx × PResult :=
@@ -439,6 +508,7 @@ def procRun (env : Env) (p : Proc) (k : Key) (c : Ctx) : Ctx × PResult :=
   | .expressEditor => editorProcess env false k c
   | .fluidEditor => editorProcess env true k c
   | .other => (c, .noop)
+  | .punctuator => punctProcess env k c
 
 /-- returns the new state and whether the key was handled -/
 def chain (env : Env) (k : Key) : List Proc → Ctx → Ctx × Bool
